@@ -1,6 +1,6 @@
 SPECIFICATION Spec
 CONSTANTS MaxBlock = 5 MaxOps = 9 MaxLen = 12
-  Ms = {0, 1, 2}
+  Ms = {0, 1, 2, 9}
   Takes = {0, 1, 2}
   Srcs = {"iter", "list", "tuple"}
   SplitBufs <- SplitBufsThorough
@@ -18,5 +18,6 @@ INVARIANT AfterRequest
 INVARIANT OneBlock
 INVARIANT SecondRequestEmpty
 INVARIANT SplitEqRun
+INVARIANT SplitPerBuffer
 INVARIANT SeqEqRun
 CHECK_DEADLOCK FALSE
